@@ -51,11 +51,13 @@ def gen(rng, tier):
             main.append({"op": "reusable", "ex": "A", "kw": {"max_workers": workers, "timeout": timeout or 10.0}})
         extra = rng.randint(0, 3)
         for _ in range(workers + extra):
-            main.append(submit_op("A", fid, dict(id=fid, kind="work", dur=100.0, sat=True), []))
+            main.append(dict(submit_op("A", fid, dict(id=fid, kind="work", dur=100.0, sat=True), []), keep=True))
             fid += 1
         main.append({"op": "wait_all"})
         main.append({"op": "shutdown", "ex": "A", "wait": True})
-        return dict(family="parallel", knobs=gen_knobs(rng, tier), model=gen_model(rng), threads=threads,
+        kn = gen_knobs(rng, tier)
+        kn["J"] = min(kn["J"], 1.0)     # delivery is stated for scheduling delays far below the 100 s task length
+        return dict(family="parallel", knobs=kn, model=gen_model(rng), threads=threads,
                     faults=[], deliver=workers)
     for th in range(nthreads):
         ops = threads[th]
@@ -122,7 +124,7 @@ class C08(Prop):
             for t, d in sorted(evs, key=lambda x: (x[0], x[1])):
                 cur += d
                 peak_sat = max(peak_sat, cur)
-            if peak_sat != want:
+            if len(sat) >= want and peak_sat != want:
                 out.append(V(pid, "C08/parallelism-not-delivered", "max_workers=%d, %d long tasks pending, peak simultaneous bodies %d" % (want, len(sat), peak_sat)))
         return out
 
